@@ -15,7 +15,7 @@ open Arrai
 /-! ## transformers -/
 inductive Tr where
   | ident | plus1 | const (n : Int) | toStr | neg1 | table (kvs : List (Int × Int))
-  | keyOnly | addKey | pairKV
+  | keyOnly | addKey | pairKV | fail
   deriving Inhabited
 
 def qV : V := (Lit.str 0 [113]).den
@@ -33,6 +33,7 @@ def Tr.fn : Tr → F
   | .keyOnly => fun k _ => .ok k
   | .addKey => fun k v => match k, v with | .num a, .num b => .ok (.num (a + b)) | _, _ => .error .other
   | .pairKV => fun k v => .ok (V.mkArr [k, v])
+  | .fail => fun _ _ => .error .other
 
 def Tr.body : Tr → String
   | .ident => "x"
@@ -44,11 +45,12 @@ def Tr.body : Tr → String
   | .keyOnly => "i"
   | .addKey => "i + x"
   | .pairKV => "[i, x]"
+  | .fail => "(a: x).b"
 
 def Tr.src (withAt : Bool) (t : Tr) : String := (if withAt then "\\i \\x " else "\\x ") ++ t.body
 def Tr.name : Tr → String
   | .ident => "ident" | .plus1 => "plus1" | .const _ => "const" | .toStr => "nonchar" | .neg1 => "neg"
-  | .table _ => "partial" | .keyOnly => "key" | .addKey => "addkey" | .pairKV => "pairkv"
+  | .table _ => "partial" | .keyOnly => "key" | .addKey => "addkey" | .pairKV => "pairkv" | .fail => "fail"
 
 /-! ## argument literals -/
 inductive ArgL where
@@ -260,6 +262,30 @@ def mkSafe (id strat : String) (c : CE) (a : ArgL) : Case :=
     model := obsE m, spec := if specKeyed c then obsE s else "!panic",
     payload := [s!"{c.src}({a.src})?:{fbSrc}"] }
 
+/-- `c(i)?(j)?:d` / `c(i)(j)?:d`: two call tails, the first one safe or not (SafeTailExpr's loop) -/
+def mkChain (id strat : String) (c : CE) (safe1 : Bool) (i j : ArgL) : Case :=
+  let step2 (v : V) (call2 : V → Res V) : Res V :=
+    match v with
+    | .set _ => (match call2 v with
+      | .error .noReturn => .ok fbV
+      | r => r)
+    | _ => .error .other
+  let m : Res V := match c.impl with
+    | .ok r => (match Impl.setCall r i.arg with
+      | .error .noReturn => if safe1 then .ok fbV else .error .noReturn
+      | .error e => .error e
+      | .ok v => step2 v (fun v => Impl.setCall (Impl.build (Spec.members v)) j.arg))
+    | .error _ => .error .other
+  let s : Res V := match c.spec with
+    | .ok S => (match Spec.call S i.arg with
+      | .error .noReturn => if safe1 then .ok fbV else .error .noReturn
+      | .error e => .error e
+      | .ok v => step2 v (fun v => Spec.call v j.arg))
+    | .error _ => .error .other
+  { id := id, cls := classOf c, kind := "eval", stratum := strat,
+    model := obsE m, spec := if specKeyed c then obsE s else "!panic",
+    payload := [if safe1 then s!"{c.src}({i.src})?({j.src})?:{fbSrc}" else s!"{c.src}({i.src})({j.src})?:{fbSrc}"] }
+
 def mkValue (id strat : String) (c : CE) : Case :=
   { id := id, cls := classOf c, kind := "eval", stratum := strat,
     model := obsE (match c.impl with | .ok r => .ok r.den | .error e => .error e),
@@ -434,7 +460,7 @@ def genTr (withAt : Bool) (c : CE) : Gen Tr := do
   let safeOnly := !isSugarRep c && hasCharByte c
   let tbl : Tr := .table [(97, 65), (98, 66), (0, 7), (1, 8)]
   let common : List Tr := [.ident, .plus1, .const 98, tbl]
-  let risky : List Tr := [.toStr, .neg1, .const 300, .const 7]
+  let risky : List Tr := [.toStr, .neg1, .const 300, .const 7, .fail]
   let keyed : List Tr := [.keyOnly, .pairKV] ++ (if allNum c then [.addKey] else [])
   let pool := common ++ (if safeOnly then [] else risky ++ (if withAt then keyed else []))
   pick pool
@@ -484,9 +510,24 @@ def genCase (idx : Nat) : Gen Case := do
     let (a, ak) ← genArgFor c
     pure (mkSafe id s!"safecall/{rep}/{ak}" c a)
   else if kind < 10 then do
-    let (c, rep) ← genKeyed
-    let (a, ak) ← genArgFor c
-    pure (mkPlainCall id s!"plaincall/{rep}/{ak}" c a)
+    if (← chance 1 2) then do
+      let (c, rep) ← genKeyed
+      let (a, ak) ← genArgFor c
+      pure (mkPlainCall id s!"plaincall/{rep}/{ak}" c a)
+    else do
+      -- a collection of collections, two call tails
+      let n ← rand 4
+      let inner ← genList n (do
+        let r ← rand 4
+        if r == 3 then do pure (Lit.num (← randInt 0 3))
+        else if r == 0 then do pure (Lit.str 0 (← genCs))
+        else if r == 1 then do pure (Lit.arr 0 ((← genList (← rand 3) genElem).map some))
+        else do pure (Lit.dict (Lit.dedupBy (fun kv => kv.1.den) (← genList (← rand 3) (do pure ((← pick keyPool), (← genElem)))))))
+      let c := CE.arr (← genOffC) (← Lit.withHoles inner)
+      let (i, ik) ← genArgFor c
+      let j ← pick ([ArgL.lit (.num 0), .lit (.num 1), .lit (.num 5), .frac 0] ++ keyPool.map ArgL.lit)
+      let safe1 ← chance 1 2
+      pure (mkChain id s!"safechain/{if safe1 then "safe" else "plain"}/{ik}" c safe1 i j)
   else if kind < 14 then do
     let (c, rep) ← genKeyed
     let withAt ← chance 1 3
